@@ -98,4 +98,41 @@ PROPS = {
         'assumptions': ['as C01'],
         'partial': ['that the builder ends at the end of the token table (is_eof) is not proved; checked on the implementation by the oracle'],
     },
+    'C11': {
+        'coq': 'Props/C11.v',
+        'families': [
+            {'name': 'lex',
+             'args': {'quick': ['--malformed', 4000, '--lexemes', 500, '--exhaustive', 4], 'thorough': ['--malformed', 200000, '--lexemes', 20000, '--exhaustive', 5]},
+             'shards': {'quick': 16, 'thorough': 16}, 'driver_args': []},
+            {'name': 'tree',
+             'args': {'quick': ['--corpus', 1, '--mutants', 1000, '--templates', 1500, '--random', 2500],
+                      'thorough': ['--corpus', 1, '--mutants', 30000, '--templates', 50000, '--random', 80000]},
+             'shards': {'quick': 16, 'thorough': 16}, 'driver_args': []},
+        ],
+        'exhaustive': {'quick': False, 'thorough': False},
+        'rule': 'generated well-formed lexeme sequences with one malformed lexeme (21 kinds: unterminated strings/bit strings/block comments, '
+                'empty base prefixes, empty exponents, bad version headers, emoji and # identifiers) spliced at a random position; the oracle '
+                'requires a lexical diagnostic on the token containing the lexeme; text-level family checks parse_check_lex has a tree iff '
+                'no lexical diagnostic and that both entry points agree on clean input',
+        'trusted_base': ['as C14; Model/Builder.v parse_check_lex'],
+        'assumptions': ['gating of semantic analysis is decided by the analyser checks (C03), not here'],
+        'partial': ['class lemmas proved for 3 of 6 malformed classes; the others by correspondence/oracle only'],
+    },
+    'C15': {
+        'coq': 'Props/C15.v',
+        'families': [
+            {'name': 'lex',
+             'args': {'quick': ['--lexemes', 6000, '--exhaustive', 4], 'thorough': ['--lexemes', 300000, '--exhaustive', 5]},
+             'shards': {'quick': 16, 'thorough': 16}, 'driver_args': []},
+        ],
+        'exhaustive': {'quick': False, 'thorough': False},
+        'rule': 'random sequences of 1..8 well-formed lexemes (identifiers incl. Unicode and p/O-initial, 43 keywords, 9 type names, hardware '
+                'qubits, integers in 4 radices with underscores, 6 float shapes, number+unit with/without blank, bit strings and strings in '
+                'both quotes, 27 punctuation characters, comments, pragma/annotation lines, version headers), each laid out twice with '
+                'different separators obeying the side conditions; oracle: non-trivia kinds/texts equal the expected ones, no lexical error, '
+                'both layouts give the same non-trivia tokens',
+        'trusted_base': ['as C14; the lexeme generators and their expected kinds (harness fam_lex.rs)'],
+        'assumptions': [],
+        'partial': ['munch lemmas proved for identifiers, whitespace, line comments, 22 punctuation characters; other classes by correspondence/oracle only'],
+    },
 }
